@@ -118,9 +118,9 @@ static void ch_splice(unsigned char **pb, int *pn, const chi *c, int at, int del
 
 /* ---- mutations of a ClientHello on the wire ---- */
 enum { MU_NONE = 0, MU_SID_TRUNC, MU_SID_XOR, MU_SID_SET, MU_TKT_XOR, MU_TKT_TRUNC, MU_TKT_EXTEND, MU_TKT_NAME,
-       MU_PSKID_XOR, MU_PSKID_NAME, MU_AGE_XOR, MU_BINDER_XOR, MU_SUITE_SWAP, MU_EMS_REMOVE, MU_EMS_ADD, MU_XVER, MU_N };
+       MU_PSKID_XOR, MU_PSKID_NAME, MU_AGE_XOR, MU_BINDER_XOR, MU_SUITE_SWAP, MU_EMS_REMOVE, MU_EMS_ADD, MU_XVER, MU_IDPLUS, MU_N };
 static const char *muname[] = { "none", "truncated-id", "edited-id", "foreign-id", "edited-ticket", "truncated-ticket", "extended-ticket", "renamed-ticket-key",
-                                "edited-psk-identity", "renamed-psk-ticket-key", "edited-ticket-age", "edited-binder", "suite-removed", "ems-removed", "ems-added", "cross-version-ticket" };
+                                "edited-psk-identity", "renamed-psk-ticket-key", "edited-ticket-age", "edited-binder", "suite-removed", "ems-removed", "ems-added", "cross-version-ticket", "own-ticket-plus-victims-id" };
 typedef struct { int kind, pos, val; unsigned char bytes[40]; int blen; uint16_t suiteFrom, suiteTo; } mut_t;
 
 /* returns 1 when the edit was applied (and changed at least one byte) */
@@ -351,7 +351,7 @@ static mx_conn *do_hs(hsreq *rq, ev_t *e, int *flightEncOut)
             if (mx_rec_at(k->q[0], k->qlen[0], o, dtls, &r) && r.type == 22 && r.len > 0 && k->q[0][o + r.hdr] == 1 && (!dtls || r.epoch == 0)) {
                 int rl = r.hdr + r.len, tail = k->qlen[0] - o - rl;
                 unsigned char *rec = malloc(rl + 1), *rest = malloc(tail + 1); memcpy(rec, k->q[0] + o, rl); memcpy(rest, k->q[0] + o + rl, tail);
-                if (rq->mut.kind != MU_NONE && rq->mut.kind != MU_XVER && ch_mutate(&rec, &rl, dtls, &rq->mut)) { e->mutApplied = 1; e->chEdited = 1; }
+                if (rq->mut.kind != MU_NONE && rq->mut.kind != MU_XVER && rq->mut.kind != MU_IDPLUS && ch_mutate(&rec, &rl, dtls, &rq->mut)) { e->mutApplied = 1; e->chEdited = 1; }
                 observe_ch(rec, rl, dtls, e);
                 k->q[0] = realloc(k->q[0], o + rl + tail + 1); memcpy(k->q[0] + o, rec, rl); memcpy(k->q[0] + o + rl, rest, tail); k->qlen[0] = o + rl + tail;
                 free(rec); free(rest); lastEdit = o;
@@ -378,7 +378,8 @@ static mx_conn *do_hs(hsreq *rq, ev_t *e, int *flightEncOut)
                     e->srvResumed = e->wireAbbrev || e->flagResumed;
                     if (e->srvResumed) e->srvSecd = dig(s->sec.masterSecret, 48);
                     e->usedTicket = s->sid && s->sid->sessionTicketState == SESS_TICKET_STATE_USING_TICKET;
-                    e->boundSidn = s->sessionIdLen > 32 ? 32 : s->sessionIdLen; memcpy(e->boundSid, s->sessionId, e->boundSidn);
+                    /* the cache entry this connection is bound to (a ticket session merely echoes the client's session id, RFC 5077 3.4) */
+                    e->boundSidn = e->usedTicket ? 0 : s->sessionIdLen > 32 ? 32 : s->sessionIdLen; memcpy(e->boundSid, s->sessionId, e->boundSidn);
                 }
                 TRACE("      decision: ver=%s suite=%04x wire=%d flag=%d resumed=%d boundSidLen=%d\n", e->negVer >= 0 ? mx_vername[e->negVer] : "?", e->negSuite, e->wireAbbrev, e->flagResumed, e->srvResumed, e->boundSidn);
             }
@@ -490,7 +491,7 @@ static int exec_op(hist_t *h, int i)
         if (!k) return 0;
         e = ev_new(EV_HS, i, OP_FATAL); if (!e) { conn_finish(k, 0); return 0; }
         e->client = c; e->srv = -1; e->cfgver = k->cfg.ver; e->label = o->a & 1 ? "client-sends-fatal-alert" : "server-sends-fatal-alert";
-        e->boundSidn = k->s.ssl->sessionIdLen > 32 ? 32 : k->s.ssl->sessionIdLen; memcpy(e->boundSid, k->s.ssl->sessionId, e->boundSidn);
+        e->boundSidn = (k->s.ssl->sid && k->s.ssl->sid->sessionTicketState == SESS_TICKET_STATE_USING_TICKET) ? 0 : k->s.ssl->sessionIdLen > 32 ? 32 : k->s.ssl->sessionIdLen; memcpy(e->boundSid, k->s.ssl->sessionId, e->boundSidn);
         inject_fault(k, o->a & 1, e);
         if (e->srvFatal) e->sibling = sibling_live(e);
         conn_finish(k, 0); break; }
@@ -525,8 +526,17 @@ static int exec_op(hist_t *h, int i)
             int need = -1; m.kind = o->a % MU_N; m.pos = o->b; m.val = o->d & 0xff;
             if (m.kind >= MU_SID_TRUNC && m.kind <= MU_SID_SET) need = CK_SID; else if (m.kind >= MU_TKT_XOR && m.kind <= MU_TKT_NAME) need = CK_TICKET; else if (m.kind >= MU_PSKID_XOR && m.kind <= MU_BINDER_XOR) need = CK_PSK;
             if (m.kind == MU_NONE) return 0;
+            if (m.kind == MU_IDPLUS) {
+                /* the presenter's own valid ticket together with someone else's cached session id in one (genuine, unedited) hello */
+                int own = pick_cred(c, -1, CK_TICKET), w2, vic = pick_cred_any(h->nc, who, -1, CK_SID, &w2);
+                if (own < 0 || vic < 0) return 0;
+                cred_t *G = &CR[own]; ccfg_t vc = { G->ver, (uint16_t) G->suite, G->ems ? 0 : -1, 1, G->srv };
+                rq.srv = vc.srv; rq.cfg = cfg_of(&vc); rq.crafted = 1; rq.forged = 0; rq.label = muname[MU_IDPLUS]; rq.mut = m;
+                sslSessionId_t *sid = craft_sid(G, CK_TICKET, 0, NULL, &XR, &rq.cliKeyd); if (!sid) return 0;
+                memcpy(sid->id, CR[vic].b, 32); sid->idLen = 32;
+                rq.sid = sid; e = run_hs(i, kind, &rq, 1, NULL, NULL); matrixSslDeleteSessionId(sid); break;
+            }
             g = pick_cred_any(h->nc, who, -1, need, &who);
-            if (g >= 0 && m.kind == MU_XVER && CR[g].kind == CK_SID) return 0;
             rq.forged = 1;
         }
         if (g < 0) return 0;
@@ -538,11 +548,13 @@ static int exec_op(hist_t *h, int i)
             if (m.kind == MU_SID_SET) { m.blen = 32; vf_fill(&XR, m.bytes, 32); if (m.val & 1) memcpy(m.bytes, G->b, 4); else { m.bytes[0] = (unsigned char) (m.pos % 32); m.bytes[1] = m.bytes[2] = m.bytes[3] = 0; } }
             if (m.kind == MU_TKT_NAME || m.kind == MU_PSKID_NAME) { vf_fill(&XR, m.bytes, 16); for (int j = 0; j < nk[vc.srv]; j++) if (memcmp(POOL[klist[vc.srv][j]].name, G->b, 16)) { memcpy(m.bytes, POOL[klist[vc.srv][j]].name, 16); break; } }
             if (m.kind == MU_SUITE_SWAP) { m.suiteFrom = (uint16_t) G->suite; m.suiteTo = other_suite((uint16_t) G->suite); }
-            if (m.kind == MU_XVER) { if (G->kind == CK_TICKET) { asKind = CK_PSK; vc.ver = MX_TLS13; vc.suite = 0x1301; vc.tkt = 0; vc.ems = 0; } else { asKind = CK_TICKET; vc.ver = MX_TLS12; vc.suite = 0x00ae; vc.tkt = 1; vc.ems = 0; } }
-            rq.label = muname[m.kind]; rq.mut = m;
+            if (m.kind == MU_XVER && G->kind == CK_SID) { vc.ver = MX_TLS13; vc.suite = 0x1301; vc.tkt = 0; vc.ems = 0; rq.label = "id-in-tls1.3-hello"; }
+            else if (m.kind == MU_XVER) { if (G->kind == CK_TICKET) { asKind = CK_PSK; vc.ver = MX_TLS13; vc.suite = 0x1301; vc.tkt = 0; vc.ems = 0; } else { asKind = CK_TICKET; vc.ver = MX_TLS12; vc.suite = 0x00ae; vc.tkt = 1; vc.ems = 0; } }
+            if (!rq.label) rq.label = muname[m.kind]; rq.mut = m;
         }
         rq.srv = vc.srv; rq.cfg = cfg_of(&vc); rq.crafted = 1;
         sslSessionId_t *sid = craft_sid(G, asKind, secretMode, C->partial, &XR, &rq.cliKeyd); if (!sid) return 0;
+        if (kind == OP_FORGE && m.kind == MU_XVER && G->kind == CK_SID) sid->cipherId = 0x1301;   /* the TLS 1.3 hello carries the cached id as legacy_session_id */
         rq.sid = sid; e = run_hs(i, kind, &rq, 1, NULL, NULL);
         if (e && kind == OP_FORGE && m.kind != MU_XVER && !e->mutApplied) { e->forged = 0; e->label = "mutation-not-applicable"; vf_stat("mutations_not_applicable", 1); }
         if (e && h->quiet && kind == OP_REPLAY && secretMode == 0) e->mustResume = 1;
@@ -629,7 +641,7 @@ static const char *unjustified(const cred_t *m, const ev_t *e)
 {
     long age = e->t - m->issued, life = m->kind == CK_PSK ? LIFE_T13 : LIFE_CACHE;
     if (m->incomplete) return m->incomplete == 2 ? "resumed-unfinished-session" : "resumed-never-completed-session";
-    if (m->secd != e->srvSecd) return "wrong-secret";
+    if (m->secd != e->srvSecd) return (m->kind == CK_SID && m->m_invalid) ? "wrong-secret-after-invalidation" : "wrong-secret";
     if (m->kind == CK_SID && m->m_invalid) return m->m_invalid == 2 ? "resumed-after-fatal-alert-on-sibling-connection" : "resumed-after-fatal-alert";
     if (age > life) return (m->kind == CK_SID && age * 1000 > 2147483647L) ? "resumed-long-after-expiry" : "resumed-after-expiry";
     if (m->kind != CK_SID && !model_key_loaded(e->srv, m->keyuid)) return "resumed-ticket-key-not-loaded";
@@ -709,9 +721,9 @@ static uint16_t def_suite(int ver) { return ver == MX_TLS13 ? 0x1301 : ver == MX
 static void h_client(int i, int ver, int kind, int ems, int srv) { H.cc[i] = (ccfg_t) { ver, def_suite(ver), ems, kind == CK_TICKET, srv }; }
 
 enum { T_PC = 0, T_TRUNC, T_XORID, T_FOREIGNID, T_STOLEN, T_EXPIRY, T_OVERFLOW, T_FATAL, T_SUITE, T_EMS, T_VERMIS, T_ABANDON, T_TKTXOR, T_TKTLEN, T_TKTNAME, T_KEYOPS, T_FOREIGNSRV,
-       T_13XOR, T_13BINDER, T_13NAME, T_XVER, T_EVICT, T_SIBLING, T_PAUSED, T_N };
+       T_13XOR, T_13BINDER, T_13NAME, T_XVER, T_EVICT, T_SIBLING, T_PAUSED, T_IDPLUSTICKET, T_N };
 static const char *tname[] = { "positive-control", "truncated-id", "edited-id", "foreign-id", "stolen-credential", "expiry", "long-idle", "fatal-alert", "suite-removed", "ems-differs", "version-differs",
-                               "abandoned-handshake", "edited-ticket", "ticket-length", "ticket-key-name", "ticket-key-ops", "foreign-server", "edited-psk-identity", "edited-binder", "psk-key-name", "cross-version-ticket", "eviction", "fatal-alert-sibling-connection", "paused-handshake" };
+                               "abandoned-handshake", "edited-ticket", "ticket-length", "ticket-key-name", "ticket-key-ops", "foreign-server", "edited-psk-identity", "edited-binder", "psk-key-name", "cross-version-ticket", "eviction", "fatal-alert-sibling-connection", "paused-handshake", "id-and-ticket-in-one-hello" };
 typedef struct { int t, ver, kind, var; } sdesc;
 static sdesc SD[600]; static int nSD;
 static void sd_add(int t, int ver, int kind, int var) { if (nSD < 600) SD[nSD++] = (sdesc) { t, ver, kind, var }; }
@@ -736,6 +748,7 @@ static void build_script_index(void)
         for (int k = 0; k < (T ? 8 : 1); k++) sd_add(T_TKTXOR, v, CK_TICKET, k);
         sd_add(T_TKTLEN, v, CK_TICKET, 0); sd_add(T_TKTNAME, v, CK_TICKET, 0); sd_add(T_KEYOPS, v, CK_TICKET, 0);
         sd_add(T_FOREIGNSRV, v, CK_TICKET, 0); sd_add(T_FOREIGNSRV, v, CK_TICKET, 1);
+        sd_add(T_IDPLUSTICKET, v, CK_SID, 0); sd_add(T_IDPLUSTICKET, v, CK_SID, 1); sd_add(T_IDPLUSTICKET, v, CK_SID, 2);
         sd_add(T_EVICT, v, CK_SID, 0); sd_add(T_SIBLING, v, CK_SID, 0); sd_add(T_SIBLING, v, CK_SID, 1);
     }
     for (int kd = CK_SID; kd <= CK_TICKET; kd++) { sd_add(T_VERMIS, MX_TLS12, kd, MX_TLS11); sd_add(T_VERMIS, MX_TLS11, kd, MX_TLS12); sd_add(T_VERMIS, MX_TLS12, kd, MX_DTLS12); sd_add(T_VERMIS, MX_DTLS12, kd, MX_TLS12); }
@@ -744,7 +757,7 @@ static void build_script_index(void)
     sd_add(T_KEYOPS, MX_TLS13, CK_PSK, 0); sd_add(T_FOREIGNSRV, MX_TLS13, CK_PSK, 0); sd_add(T_FOREIGNSRV, MX_TLS13, CK_PSK, 1);
     for (int k = 0; k < (T ? 10 : 1); k++) sd_add(T_13XOR, MX_TLS13, CK_PSK, k);
     for (int k = 0; k < (T ? 3 : 1); k++) sd_add(T_13BINDER, MX_TLS13, CK_PSK, k);
-    sd_add(T_13NAME, MX_TLS13, CK_PSK, 0); sd_add(T_XVER, MX_TLS12, CK_TICKET, 0); sd_add(T_XVER, MX_TLS11, CK_TICKET, 0);
+    sd_add(T_13NAME, MX_TLS13, CK_PSK, 0); sd_add(T_XVER, MX_TLS12, CK_TICKET, 0); sd_add(T_XVER, MX_TLS11, CK_TICKET, 0); sd_add(T_XVER, MX_TLS12, CK_SID, 0); sd_add(T_XVER, MX_TLS11, CK_SID, 0);
 }
 
 static void build_script(const sdesc *d, vf_rng *g)
@@ -797,11 +810,16 @@ static void build_script(const sdesc *d, vf_rng *g)
         else { static const int p[] = { 0, 1, 15, 16, 31 }; for (int i = 0; i < 5; i++) OPA(OP_FORGE, 0, 0, MU_BINDER_XOR, p[i], 1 << vf_below(g, 8)); }
         for (int i = 0; i < 4; i++) OPA(OP_FORGE, 0, 0, MU_AGE_XOR, i, bit);
         OPA(OP_REPLAY, 0, 0, 0, 0, 0); break; }
-    case T_XVER: h_client(1, MX_TLS13, CK_PSK, 0, 0); OPA(OP_FULL, 0, 0, 0, 0, 0); OPA(OP_FULL, 1, 0, 0, 0, 0); OPA(OP_FORGE, 1, 0, MU_XVER, 0, 0); OPA(OP_FORGE, 0, 1, MU_XVER, 0, 0); OPA(OP_REPLAY, 0, 0, 0, 0, 0); OPA(OP_REPLAY, 1, 1, 0, 0, 0); break;
+    case T_XVER: if (d->kind == CK_SID) { h_keys(0, 0); OPA(OP_FULL, 0, 0, 0, 0, 0); OPA(OP_FORGE, 1, 0, MU_XVER, 0, 0); OPA(OP_REPLAY, 1, 0, 0, 2, 0); OPA(OP_FULL, 0, 0, 0, 0, 0); OPA(OP_FORGE, 1, 0, MU_XVER, 0, 0); OPA(OP_REPLAY, 0, 0, -1, 0, 0); break; }
+        h_client(1, MX_TLS13, CK_PSK, 0, 0); OPA(OP_FULL, 0, 0, 0, 0, 0); OPA(OP_FULL, 1, 0, 0, 0, 0); OPA(OP_FORGE, 1, 0, MU_XVER, 0, 0); OPA(OP_FORGE, 0, 1, MU_XVER, 0, 0); OPA(OP_REPLAY, 0, 0, 0, 0, 0); OPA(OP_REPLAY, 1, 1, 0, 0, 0); break;
     case T_SIBLING: OPA(OP_FULL, 0, 0, 0, 0, 0); OPA(OP_KEEP, 0, 0, 0, 0, 0);
         if (d->var) { OPA(OP_REPLAY, 1, 0, 0, 1, 0); } else { OPA(OP_REPLAY, 1, 0, 0, 0, 0); OPA(OP_FORGE, 1, 0, MU_SUITE_SWAP, 0, 0); }
         OPA(OP_CLOSE, 0, 0, 0, 0, 0); OPA(OP_REPLAY, 1, 0, 0, 0, 0); break;
     case T_PAUSED: OPA(OP_PAUSED, 0, 0, d->var % 3, 0, d->var / 3); OPA(OP_RESUME, 0, 0, 0, 0, 0); OPA(OP_PAUSED, 0, 0, d->var % 3, 1, d->var / 3); OPA(OP_RESUME, 0, 0, 0, 0, 0); break;
+    case T_IDPLUSTICKET:   /* a client that asks for tickets meets a server without ticket keys (gets an id), the id is invalidated, keys are loaded, the client now holds id + ticket */
+        if (d->var == 2) { H.cc[1].tkt = 1; OPA(OP_FULL, 0, 0, 0, 0, 0); OPA(OP_KEY, 0, 0, 0, 0, 0); OPA(OP_FULL, 1, 0, 0, 0, 0); OPA(OP_FORGE, 1, 0, MU_IDPLUS, 0, 0); OPA(OP_REPLAY, 0, 0, 0, 0, 0); OPA(OP_RESUME, 1, 0, 0, 0, 0); break; }
+        H.cc[0].tkt = 1; OPA(OP_FULL, 0, 0, 0, 0, 0); if (d->var) OPA(OP_FATAL, 0, 0, 1, 0, 0); else OPA(OP_CLOCK, 0, 0, 1, 0, 1);
+        OPA(OP_KEY, 0, 0, 0, 0, 0); OPA(OP_RESUME, 0, 0, 0, 0, 0); OPA(OP_RESUME, 0, 0, 0, 0, 0); OPA(OP_REPLAY, 1, 0, 0, 0, 0); OPA(OP_REPLAY, 1, 0, 0, 1, 0); break;
     case T_EVICT: OPA(OP_FULL, 0, 0, 0, 0, 0); OPA(OP_FILL, 0, 0, 31, 0, 0); OPA(OP_REPLAY, 0, 0, 0, 0, 0); OPA(OP_FILL, 0, 0, 2, 0, 0); OPA(OP_REPLAY, 0, 0, 0, 0, 0); OPA(OP_FULL, 1, 0, 0, 0, 0); OPA(OP_REPLAY, 0, 0, 0, 0, 0);
         OPA(OP_FORGE, 0, 1, MU_SID_TRUNC, 3, 0); OPA(OP_KEEP, 1, 0, 0, 0, 0); OPA(OP_FILL, 0, 0, 34, 0, 0); OPA(OP_REPLAY, 1, 1, 0, 0, 0); break;
     }
@@ -890,6 +908,8 @@ int main(int argc, char **argv)
     g_verbose = vf_verbose;
     mx_global_init(); mx_keys_load();
     KS[0] = mx_keys.srv_rsa; KS[1] = mx_mkkeys(MX_TK "RSA/2048_RSA.pem", MX_TK "RSA/2048_RSA_KEY.pem", mx_ca_both);
+    /* the shared harness preloads a default ticket key into its key sets: histories start from key sets without ticket keys */
+    for (int ks = 0; ks < 2; ks++) while (KS[ks]->sessTickets) { unsigned char nm[16]; memcpy(nm, KS[ks]->sessTickets->name, 16); if (matrixSslDeleteSessionTicketKey(KS[ks], nm) < 0) { fprintf(stderr, "HARNESS: cannot remove preloaded ticket key\n"); return 2; } }
     build_script_index();
     NRANDOM = vf_argl("--histories", vf_thorough ? 20000 : 300);
     long total = nSD + NRANDOM;
